@@ -1,36 +1,49 @@
 """C01 — a commit records exactly the selected working-tree state.
 
 Mechanism: breezy/commit.py (Commit.commit pipeline, filter_excluded,
-Commit._filter_iter_changes, _update_branches, the `except: builder.abort()`
-block), breezy/bzr/vf_repository.py (VersionedFileCommitBuilder.record_iter_changes,
+Commit._filter_iter_changes, the pending-merge refusal, _update_branches incl. the
+master branch of a bound branch, the `except: builder.abort()` block),
+breezy/bzr/vf_repository.py (VersionedFileCommitBuilder.record_iter_changes,
 finish_inventory, commit, abort), breezy/bzr/workingtree_4.py (iter_changes,
 unversion, update_basis_by_delta), breezy/git/commit.py (GitCommitBuilder),
 breezy/git/tree.py (changes_from_git_changes, update_basis_by_delta).
 
 Cases.  A *scenario* is a real working tree (2a dirstate tree with explicit
-file ids, or a git tree) built by a replayable op script: 0-3 prior commits
-with random edits between them, then pending edits (add file / mkdir / symlink,
-modify, chmod, rename, remove keeping or deleting the file, delete from disk
-(= missing), in-place kind change, re-add under a new id).  A *case* is a
-scenario plus `specific_files` / `exclude` (subsets of <= 3 paths of the two
-trees, a few unknown names) or plus a fault: an exception raised at a pipeline
-stage boundary (change stream, finish_inventory, message callback,
-builder.commit, pre_commit hook, set_last_revision_info, update_basis_by_delta,
-post_commit hook) or at the k-th mutating transport call of the repository /
-branch (lightweight checkout of a branch behind a fault-injecting transport
-decorator).  Every case runs on a fresh copy of the scenario tree.
+file ids, a heavyweight checkout bound to a master branch, or a git tree) built
+by a replayable op script: 0-3 prior commits with random edits between them,
+optionally a merge of a second branch (pending merge), then pending edits (add
+file / mkdir / symlink, modify, chmod, rename, remove keeping or deleting the
+file, delete from disk (= missing), in-place kind change, re-add under a new id,
+and the "directory swap" family: a directory takes over the path of another one
+and an entry of the displaced directory moves into a subdirectory of the
+newcomer - the family on which the closure loop as found never terminated).  A *case* is a scenario plus `specific_files` / `exclude` (always
+None and [], then subsets of <= 3 paths of the two trees, a few unknown names)
+or plus a fault: an exception raised at a pipeline stage boundary - before the
+first / after the last change of the stream, before / after finish_inventory,
+message callback, builder.commit, pre_commit hook, update of the master branch
+(bound), set_last_revision_info of the local branch, update_basis_by_delta,
+post_commit hook - in plain 2a trees, bound checkouts and git trees, or at the
+k-th mutating transport call of the repository / branch (lightweight checkout of
+a branch behind a fault-injecting transport decorator).  Every case runs on a
+fresh copy of the scenario.
 
 T2: the Lean model (Model/C01.lean) gets the basis tree and the working tree
-    (both read from the real objects in id space; git: path space) and the
-    selection and must predict: ok / error kind, the ids that reach
-    record_iter_changes, the complete new revision tree (id -> parent, name,
-    kind, content, exec / target, read from the repository after re-opening),
-    the versioned ids and the missing ids of the working tree afterwards
-    (`commit` line); the same with the observed id list as input (`from`
-    line, ties everything after the change stream when the compiled dirstate
-    comparison selects more than InterInventoryTree would); git: the complete
-    new tree from the reported change pairs (`git` line); faults: raised?,
-    visible revisions, tip, tree basis (`fault` line).
+    (both read from the real objects in id space; git: path space), whether a
+    merge is pending, and the selection and must predict: ok / error kind
+    (PathsNotVersioned with the paths, InconsistentDelta, CannotCommitSelectedFileMerge,
+    RootMissing), the ids that reach record_iter_changes, the complete new
+    revision tree (id -> parent, name, kind, content, exec / target, read from
+    the repository after re-opening), the versioned ids and the missing ids of
+    the working tree afterwards (`commit` line); the same with the observed id
+    list as input (`from` line, ties everything after the change stream when
+    the compiled dirstate comparison selects more than InterInventoryTree
+    would); the model never answers E:fuel (theorem commit_never_fuel: the
+    closure loop as repaired by /repo e6ca8fc always terminates); git: the complete new tree from
+    the reported change pairs (`git` line); faults: the write-group program of
+    the model with the fault point, bound or not, and the number of texts the
+    unfaulted commit adds must predict raised?, visible revisions, tip, tree
+    basis, write group left open?, the master's revisions and tip, and the
+    number of inventories and texts that became visible (`fault` line).
 Oracle (independent of the model, on the real objects): O1 every id whose basis
     or working path is at or below a selected path and not below an excluded
     one has its working entry in the new tree; O2 every other id has its basis
@@ -40,15 +53,22 @@ Oracle (independent of the model, on the real objects): O1 every id whose basis
     after the commit the ids recorded are unchanged against the new basis and
     every other pending change is still reported (ids of iter_changes after
     re-opening == pending before minus recorded); O5 tip = new revision, revno
-    + 1, all_revision_ids = before + {new}; O6 a commit that raises leaves
-    all_revision_ids, the tip, the basis and the working inventory unchanged.
+    + 1, all_revision_ids = before + {new}, the new revision's parents are the
+    tree's parents (pending merges included) and the tree's only parent is the
+    new revision; O6 a commit that raises leaves all_revision_ids, the tip,
+    the master branch, the basis, the tree's parents and the working inventory
+    unchanged; O7 a selection or exclusion with a pending merge is refused.
 
 Findings on the unchanged code, each reported with a family slug computed from
 the failing case:
- revision-left-after-late-exception:pre_commit-hook | :set_last_revision_info
+ revision-left-after-late-exception:pre_commit-hook | :set_last_revision_info | :master-update
      (DESIGN 7-F6) an exception raised after builder.commit() - by a pre_commit hook
-     in _update_branches -> _process_pre_hooks, or by the write of branch/last-revision -
-     makes commit() raise with the tip unchanged but the new revision in all_revision_ids()
+     in _update_branches -> _process_pre_hooks, by the update of the master branch of a bound
+     branch (NEW, bound checkouts), or by the write of branch/last-revision - makes commit() raise
+     with the tip unchanged but the new revision in all_revision_ids()
+ master-updated-before-late-exception:set_last_revision_info
+     (NEW, bound checkouts) the local set_last_revision_info fails after the master branch already
+     got the new revision as its tip: commit() raises, the local tip is unchanged, the master moved
  exception-after-tip-update:update_basis_by_delta | :post_commit-hook
      commit() raises although the branch tip already moved
  (repaired in /repo, no longer classified - a plain VIOLATION if they return:
@@ -62,6 +82,17 @@ the failing case:
  dirstate-unselected-entry-at-vacated-path
      bzr: the compiled dirstate comparison also reports the (unselected) entry that now sits
      where a selected entry was renamed away from; its pending change is committed too
+ selected-unchanged-entry-below-moved-unselected-directory
+     (NEW classification; the oracle O3 of the check as found already flagged it, rarely) `mv c/a c/b` then
+     commit(specific_files=['c/b/b']) with c/a/b itself untouched records nothing: the selected working path does
+     not exist in the new revision (theorem selected_path_carried_witness; corpus 11)
+ dirstate-unselected-entry-below-vacated-path
+     (NEW, directory-swap family) ... and everything below a directory that now sits at a path a
+     selected entry vacated: commit(specific_files=['e/d/b']) after `mv e z; mv c e; mv z/d e/d/b`
+     also commits the unselected new file e/d/new
+ (C10's subject, found here and repaired by /repo e6ca8fc: InterInventoryTree._handle_precise_ids never
+  terminated on the directory-swap family - closure_diverges_witness is about the loop as found; the model
+  uses the repaired loop; the commit itself uses the compiled comparison; corpus 10)
 
 Mutants tried in a scratch worktree (finding families above ignored):
  m1 filter_excluded: old path not tested for exclusion             -> oracle O2 (excluded id committed) + T2
@@ -71,6 +102,10 @@ Mutants tried in a scratch worktree (finding families above ignored):
  m5 Commit.commit: deleted_paths not unversioned                    -> oracle O4 + T2
  m6 GitCommitBuilder: old path of a rename not deleted              -> oracle O1 (rename pair) + T2 git line (corpus 01)
  m7 _filter_iter_changes: changes with versioned[1] False dropped   -> oracle O1/O4
+ m8 Commit.commit: pending merge + exclude no longer refused        -> oracle O7 + T2 commit line
+ m9 _update_branches: local tip written before the master           -> oracle (fault at master update: tip moved) + T2 fault line
+ m10 Commit.commit: only the first parent handed to the builder     -> oracle O5 (parents of a merge commit)
+ seed-C01b specific_files=[] treated as "no filter"                 -> oracle O2 (every scenario commits with [])
  harmless: filter_excluded with one combined condition              -> clean
 """
 import os
@@ -80,19 +115,26 @@ from vlib import env
 
 THEOREMS = [
     "commitTree_get", "commit_selected", "commit_unselected", "commit_wf", "commit_paths_agree", "commit_paths_selected",
-    "commit_all", "commit_only_changed", "commit_excluded_untouched", "status_after_commit",
-    "commit_wf_lax_partial", "excluded_child_corrupt_witness", "closure_insufficient_witness",
-    "git_written", "git_untouched", "git_deleted",
-    "commit_abort_noop_partial", "late_fault_leaves_revision_witness", "late_fault_moves_tip_witness", "commit_no_fault",
+    "commit_paths_prefix", "commit_all", "commit_only_changed", "commit_ids_justified", "commit_excluded_untouched",
+    "status_after_commit", "commit_merge_refused", "commit_merge_all", "commit_full_total", "commit_never_fuel",
+    "commit_wf_lax_partial", "excluded_child_corrupt_witness", "closure_insufficient_witness", "closure_diverges_witness",
+    "selected_path_carried_witness",
+    "git_written", "git_untouched", "git_deleted", "git_selected", "git_unselected",
+    "commit_abort_noop_partial", "publish_ordered", "late_fault_leaves_revision_witness", "late_fault_master_ahead_witness",
+    "late_fault_moves_tip_witness", "commit_no_fault",
 ]
-RULE = ("scenario = (format, replayable op script with 0-3 commits, pending edits); case = (scenario, specific_files, exclude) "
-        "or (scenario, fault stage | k-th mutating transport call); distinct by canonical (basis tree, working tree, "
-        "selection / fault); non-trivial = at least one pending change and (a selection, an exclusion or a fault)")
+RULE = ("scenario = (format 2a | 2a bound checkout | git, replayable op script with 0-3 commits, optional pending merge, pending "
+        "edits); case = (scenario, specific_files, exclude) or (scenario, fault stage before/after | k-th mutating transport "
+        "call); distinct by canonical (basis tree, working tree, selection / fault); non-trivial = at least one pending change "
+        "and (a selection, an exclusion or a fault)")
 ASSUMPTIONS = [
     "names from {a,b,c,d}, depth <= 3, contents from 5 values, <= 3 selected and <= 2 excluded paths (the theorems are unbounded)",
     "the compiled dirstate comparison (bzrformats) and dulwich's rename detector are exercised, not modelled: the model uses the "
     "InterInventoryTree closure (Model/C10) and, for git, takes the reported (old, new) path pairs as input",
     "faults are exceptions raised at stage boundaries or by one transport call; process crashes are the subject of C04/C27",
+    "the model's change stream is InterInventoryTree's with the closure loop as repaired by /repo e6ca8fc (always terminates)",
+    "pending merges: the tree-level statement only (the per-file graph of merge commits is C02's subject); conflicts left by the "
+    "merge are declared resolved before committing",
 ]
 TRUSTED = ["reading a real tree back in id / path space (iter_entries_by_dir + get_file_text + lstat)"]
 
@@ -116,9 +158,23 @@ def hx(s):
 class W:
     """replayable op interpreter on a real working tree"""
 
-    def __init__(self, fmt, path=None):
+    def __init__(self, fmt, path=None, bound=False):
         self.fmt = fmt
-        self.wt = env.make_tree("2a" if fmt == "bzr" else "git", path)
+        self.bound = bound
+        self.idprefix = "i"
+        self.nmerge = 0
+        if bound:
+            # heavyweight checkout: <root>/master (branch + repository, no tree) and <root>/co (bound branch, own repository)
+            from breezy.controldir import ControlDir, format_registry
+            self.root = path or env.fresh_dir("bd")
+            master = ControlDir.create_branch_convenience(os.path.join(self.root, "master"),
+                                                          format=format_registry.make_controldir("2a"), force_new_tree=False)
+            self.wt = master.create_checkout(os.path.join(self.root, "co"), lightweight=False)
+            self.sub = "co"
+        else:
+            self.wt = env.make_tree("2a" if fmt == "bzr" else "git", path)
+            self.root = self.wt.basedir
+            self.sub = ""
         self.base = self.wt.basedir
         self.n = 0
         if fmt == "bzr":
@@ -129,7 +185,28 @@ class W:
 
     def newid(self):
         self.n += 1
-        return "i%d" % self.n
+        return "%s%d" % (self.idprefix, self.n)
+
+    def sprout_other(self, k):
+        """a second branch of the committed state, as an op interpreter with its own id space"""
+        tmp = env.fresh_dir("mb")
+        os.rmdir(tmp)
+        other = self.wt.controldir.sprout(tmp).open_workingtree()
+        ow = W.__new__(W)
+        ow.fmt, ow.bound, ow.wt, ow.base, ow.root, ow.sub, ow.n, ow.nmerge = self.fmt, False, other, other.basedir, tmp, "", 0, 0
+        ow.idprefix = "m%d_" % k
+        return ow
+
+    def gen_branchmerge(self, rng, n):
+        """generate the op ("branchmerge", ops on the other branch, k): the ops are generated on a throw-away sprout"""
+        self.nmerge += 1
+        ow = self.sprout_other(self.nmerge)
+        sub = []
+        try:
+            ow.gen_ops(rng, n, sub)
+        finally:
+            shutil.rmtree(ow.root, ignore_errors=True)
+        return ("branchmerge", [list(o) for o in sub], self.nmerge)
 
     def add(self, p, fid):
         if self.fmt == "bzr":
@@ -185,6 +262,18 @@ class W:
             self.add(op[1], op[2])
         elif k == "commit":
             wt.commit("c%d" % op[1], rev_id=(b"rev%d" % op[1]) if self.fmt == "bzr" else None)
+        elif k == "branchmerge":
+            # commit op[1] on a sprout of the committed state, merge it: the tree gets a second parent
+            ow = self.sprout_other(op[2])
+            try:
+                for sub in op[1]:
+                    ow.apply_safe(tuple(sub))
+                ow.wt.commit("m%d" % op[2], rev_id=(b"mrev%d" % op[2]) if self.fmt == "bzr" else None)
+                wt.merge_from_branch(ow.wt.branch)
+                if self.fmt == "bzr":
+                    wt.set_conflicts([])      # declared resolved: whatever the merge left is the state to commit
+            finally:
+                shutil.rmtree(ow.root, ignore_errors=True)
         else:
             raise AssertionError(op)
 
@@ -270,17 +359,66 @@ class W:
             script.append(op)
 
 
-def build_script(fmt, rng, pick):
+def gen_swap_setup(w, rng, script):
+    """two top-level directories X (with a file X/n) and Y (with a subdirectory Y/n of the same name), to be
+    committed; see gen_swap_finish"""
+    free = [n for n in NAMES + ["e"] if not os.path.lexists(w.full(n))]
+    if len(free) < 2:
+        return None
+    x, y = rng.sample(free, 2)
+    n = rng.choice(NAMES)
+    for op in [("mkdir", x, w.newid()), ("addfile", x + "/" + n, rng.choice(CONTENTS), False, w.newid()),
+               ("mkdir", y, w.newid()), ("mkdir", y + "/" + n, w.newid())]:
+        w.apply_safe(op)
+        script.append(op)
+    return x, y, n
+
+
+def gen_swap_finish(w, rng, script, setup):
+    """Y takes over the path of X and the file X/n moves into the (unchanged) directory Y/n, which now sits at
+    X/n - the family of `closure_diverges_witness`: the InterInventoryTree closure keeps finding the moved file
+    at the subdirectory's new path and the subdirectory as the moved file's new parent"""
+    x, y, n = setup
+    vp = set(w.versioned())
+    if not all(p in vp and os.path.lexists(w.full(p)) for p in (x, x + "/" + n, y, y + "/" + n)):
+        return False
+    if not os.path.isdir(w.full(y + "/" + n)) or os.path.islink(w.full(y + "/" + n)):
+        return False
+    free = [z for z in NAMES + ["e", "z"] if not os.path.lexists(w.full(z))]
+    inner = [z for z in NAMES if not os.path.lexists(w.full(y + "/" + n + "/" + z))]
+    if not free or not inner:
+        return False
+    z = rng.choice(free)
+    for op in [("rename", x, z), ("rename", y, x), ("rename", z + "/" + n, x + "/" + n + "/" + rng.choice(inner))]:
+        w.apply_safe(op)
+        script.append(op)
+    return True
+
+
+def build_script(fmt, rng, pick, bound=False, merge=None):
     """generate a scenario adaptively; returns (W, script)"""
-    w = W(fmt)
+    w = W(fmt, bound=bound)
     script = []
     ncommits = rng.choice([0, 1, 1, 2, 3])
+    if merge is None:
+        merge = fmt == "bzr" and not bound and rng.random() < 0.15
+    if merge:
+        ncommits = max(ncommits, 1)
+    swap = None
     for c in range(ncommits):
         w.gen_ops(rng, rng.randrange(2, pick(7, 10)), script)
+        if c == ncommits - 1 and fmt == "bzr" and not merge and rng.random() < 0.2:
+            swap = gen_swap_setup(w, rng, script)
         op = ("commit", c + 1)
         w.apply(op)
         script.append(op)
-    w.gen_ops(rng, rng.randrange(3, pick(11, 14)), script)
+    if merge:
+        op = w.gen_branchmerge(rng, rng.randrange(2, 6))
+        w.apply_safe(op)
+        script.append(op)
+    w.gen_ops(rng, rng.randrange(3, pick(11, 14)) if swap is None else rng.randrange(0, 4), script)
+    if swap is not None:
+        gen_swap_finish(w, rng, script, swap)
     if ncommits and rng.random() < 0.6:
         # make sure renames of committed entries are common (git: rename pairs of the detector)
         with w.wt.lock_read():
@@ -296,8 +434,8 @@ def build_script(fmt, rng, pick):
     return w, script
 
 
-def replay_script(fmt, script, path=None):
-    w = W(fmt, path)
+def replay_script(fmt, script, path=None, bound=False):
+    w = W(fmt, path, bound=bound)
     for op in script:
         w.apply_safe(tuple(op))
     return w
@@ -566,6 +704,7 @@ def run_bzr_query(base, basis, wtsnap, sel, excl, variant="strict"):
     try:
         wt = WorkingTree.open(d)
         revs0, tip0 = repo_state(wt)
+        parents0 = wt.get_parent_ids()
         err = rid = None
         with Tee() as tee:
             try:
@@ -580,6 +719,23 @@ def run_bzr_query(base, basis, wtsnap, sel, excl, variant="strict"):
         # ... and ids of the stream displaced by another entry of the stream (their basis path is taken over)
         vac = sorted(set(vac) | {i for i in S if bp.get(i) is not None and any(
             j != i and wp.get(j) == bp.get(i) and wtsnap.get(j, {}).get("kind") != "missing" for j in S)})
+        # ... and the basis descendants of such a displaced entry (a displaced directory that goes away takes its
+        # children along)
+        vs = set(vac)
+        grew = True
+        while grew:
+            grew = False
+            for i in S:
+                if i not in vs and basis.get(i, {}).get("parent") in vs:
+                    vs.add(i)
+                    grew = True
+        vac = sorted(vs)
+        # ... and ids of the stream that sit *below* an entry (selected or not) that now occupies a vacated path:
+        # the compiled comparison treats the vacated path as a changed directory and walks its children
+        vacated = {bp[j] for j in basis if bp.get(j) is not None and wp.get(j) != bp.get(j)}
+        occupiers = {wp[j] for j in wtsnap if wp.get(j) in vacated and bp.get(j) != wp.get(j)}
+        below_vac = sorted(i for i in S if wp.get(i) is not None and any(
+            wp[i].startswith(o + "/") for o in occupiers if o))
         wt = WorkingTree.open(d)
         revs1, tip1 = repo_state(wt)
         wt1 = snap_wt(wt)
@@ -602,8 +758,24 @@ def run_bzr_query(base, basis, wtsnap, sel, excl, variant="strict"):
                 viol.append(("commit raised %s but the basis tree changed" % impl, None))
             if wt1 != wtsnap:
                 viol.append(("commit raised %s but the working inventory changed" % impl, None))
-            return dict(impl=impl, S=S, vac=vac, viol=viol, counters=counters, below=below)
+            if wt.get_parent_ids() != parents0:
+                viol.append(("commit raised %s but the tree's parents changed %r -> %r" % (impl, parents0, wt.get_parent_ids()), None))
+            return dict(impl=impl, S=S, vac=sorted(set(vac) | set(below_vac)), viol=viol, counters=counters, below=below)
         counters.append("bzr:ok")
+        if len(parents0) > 1:
+            counters.append("bzr:merge-commit")
+            if sel is not None or excl:
+                # O7: "nothing else" cannot be honoured for a pending merge (the merged changes are not attributable
+                # to paths): the code's contract is to refuse
+                viol.append(("O7 a commit with pending merges %r and specific_files=%r exclude=%r was accepted" % (
+                    parents0[1:], sel, excl), None))
+        # O5 (parents): the new revision has the tree's parents (basis first, then the pending merges), the tree
+        # has the new revision as its only parent
+        with wt.branch.repository.lock_read():
+            newparents = list(wt.branch.repository.get_revision(rid).parent_ids)
+        if newparents != list(parents0) or wt.get_parent_ids() != [rid]:
+            viol.append(("O5 the new revision has parents %r, the tree had %r; the tree now has %r" % (
+                newparents, parents0, wt.get_parent_ids()), None))
         unreadable = None
         try:
             new = snap_rev(wt.branch.repository.revision_tree(rid))
@@ -649,6 +821,8 @@ def run_bzr_query(base, basis, wtsnap, sel, excl, variant="strict"):
                 fam = None
                 if i in vac and not (bp.get(i) is not None and any(j != i and wp.get(j) == bp.get(i) for j in S)):
                     fam = "dirstate-unselected-entry-at-vacated-path"
+                elif i in below_vac and i not in vac:
+                    fam = "dirstate-unselected-entry-below-vacated-path"
                 counters.append("bzr:unselected-committed")
                 viol.append(("O2 the pending change of unselected id %s (basis path %r, working path %r) was committed with "
                              "specific_files=%r exclude=%r" % (i, bp.get(i), wp.get(i), sel, excl), fam))
@@ -656,7 +830,14 @@ def run_bzr_query(base, basis, wtsnap, sel, excl, variant="strict"):
         np_ = paths_of(new)
         for i in sorted(must):
             if i in eff and i in new and np_.get(i) != wp.get(i):
-                viol.append(("O3 selected id %s is at %r in the new revision but at %r in the working tree" % (i, np_.get(i), wp.get(i)), None))
+                fam = None
+                if basis.get(i) == wtsnap.get(i) and new.get(i) == basis.get(i) and bp.get(i) != wp.get(i):
+                    # the entry itself is unchanged (same parent id, name, content): only a directory above it moved, and
+                    # that directory is neither selected nor needed by any recorded entry
+                    fam = "selected-unchanged-entry-below-moved-unselected-directory"
+                    counters.append("bzr:selected-unchanged-below-moved-directory")
+                viol.append(("O3 selected id %s is at %r in the new revision but at %r in the working tree (specific_files=%r)"
+                             % (i, np_.get(i), wp.get(i), sel), fam))
         bad = wf_tree(new)
         if bad or unreadable:
             # (the family excluded-child-left-below-non-directory was repaired by /repo 4a41ee3: a plain violation now)
@@ -667,7 +848,7 @@ def run_bzr_query(base, basis, wtsnap, sel, excl, variant="strict"):
         pend0 = {i for i in allids if basis.get(i) != wtsnap.get(i)}
         if unreadable:
             counters.append("bzr:recorded:%d" % min(len(S), 6))
-            return dict(impl=impl, S=S, vac=vac, viol=viol, counters=counters, below=below)
+            return dict(impl=impl, S=S, vac=sorted(set(vac) | set(below_vac)), viol=viol, counters=counters, below=below)
         pend1 = {x[0] for x in status_ids(wt)}
         if pend1 & must:
             viol.append(("O4 selected ids still reported as changed after the commit: %r" % sorted(pend1 & must), None))
@@ -691,7 +872,7 @@ def run_bzr_query(base, basis, wtsnap, sel, excl, variant="strict"):
         counters.append("bzr:recorded:%d" % min(len(S), 6))
         if any(e["kind"] == "missing" and i in basis and i in S for i, e in wtsnap.items()):
             counters.append("bzr:missing-recorded-as-removal")
-        return dict(impl=impl, S=S, vac=vac, viol=viol, counters=counters, below=below)
+        return dict(impl=impl, S=S, vac=sorted(set(vac) | set(below_vac)), viol=viol, counters=counters, below=below)
     finally:
         shutil.rmtree(d, ignore_errors=True)
 
@@ -719,11 +900,14 @@ def justified(i, recorded, must, basis, wtsnap, eff, bp, wp):
     return False
 
 
-def gen_queries(rng, basis_paths, wt_paths, n, exhaustive):
-    """(sel, excl) pairs; sel None | list, excl list"""
+def gen_queries(rng, basis_paths, wt_paths, n, exhaustive, carried=()):
+    """(sel, excl) pairs; sel None | list, excl list.  `carried`: working paths of entries that are unchanged
+    themselves but sit below a moved directory"""
     import itertools
     universe = sorted(set(p for p in list(basis_paths) + list(wt_paths) if p))
-    out = [(None, [])]
+    out = [(None, []), ([], [])]          # everything; nothing (`[]` is "commit no files", not "no filter")
+    if carried:
+        out.append(([rng.choice(sorted(carried))], []))
     if exhaustive:
         subs = [list(c) for k in (1, 2, 3) for c in itertools.combinations(universe, k)]
         rng.shuffle(subs)
@@ -883,17 +1067,28 @@ def run_git_query(base, basis, wtsnap, changes, sel, excl):
 # --------------------------------------------------------------------------
 # faults
 
-def _install_fault(stage, when):
-    """arrange for `Injected` to be raised at the given stage; returns an undo callable"""
+def _builder_class(wt):
+    if hasattr(wt.branch.repository, "_git"):
+        from breezy.git.commit import GitCommitBuilder
+        return GitCommitBuilder
+    from breezy.bzr import vf_repository
+    return vf_repository.VersionedFileCommitBuilder
+
+
+def _install_fault(wt, stage, when):
+    """arrange for `Injected` to be raised at the given stage (`when` = "first": before the stage's effect,
+    "last": after it); patches the classes of the live objects; returns an undo callable"""
     from breezy import commit as _c
     from breezy.branch import Branch
-    from breezy.bzr import vf_repository, workingtree_4, branch as bzrbranch
     undo = []
+    local_base = wt.branch.base
 
-    def patch(obj, name, fn):
-        orig = getattr(obj, name)
-        setattr(obj, name, fn(orig))
-        undo.append(lambda: setattr(obj, name, orig))
+    def patch(cls, name, mk):
+        had = name in cls.__dict__
+        orig = getattr(cls, name)
+        saved = cls.__dict__.get(name)
+        setattr(cls, name, mk(orig))
+        undo.append((lambda: setattr(cls, name, saved)) if had else (lambda: delattr(cls, name)))
     if stage == "collect":
         def mk(orig):
             def f(cself, it):
@@ -914,13 +1109,13 @@ def _install_fault(stage, when):
                 orig(bself)
                 raise Injected("finishInv-after")
             return f
-        patch(vf_repository.VersionedFileCommitBuilder, "finish_inventory", mk)
+        patch(_builder_class(wt), "finish_inventory", mk)
     elif stage == "builderCommit":
         def mk(orig):
             def f(bself, message):
                 raise Injected("builderCommit")
             return f
-        patch(vf_repository.VersionedFileCommitBuilder, "commit", mk)
+        patch(_builder_class(wt), "commit", mk)
     elif stage == "preHook":
         def hook(*a):
             raise Injected("preHook")
@@ -931,18 +1126,26 @@ def _install_fault(stage, when):
             raise Injected("postHook")
         Branch.hooks.install_named_hook("post_commit", hook, "c01-fault")
         undo.append(lambda: Branch.hooks.uninstall_named_hook("post_commit", "c01-fault"))
+    elif stage == "masterImport":
+        def mk(orig):
+            def f(bself, source, revno, revid, **kw):
+                raise Injected("masterImport")
+            return f
+        patch(type(wt.branch.get_master_branch()), "import_last_revision_info_and_tags", mk)
     elif stage == "setTip":
         def mk(orig):
             def f(bself, revno, revid):
+                if bself.base != local_base:          # the master of a bound branch is written through the same class
+                    return orig(bself, revno, revid)
                 raise Injected("setTip")
             return f
-        patch(bzrbranch.BzrBranch, "set_last_revision_info", mk)
+        patch(type(wt.branch), "set_last_revision_info", mk)
     elif stage == "updateBasis":
         def mk(orig):
             def f(tself, new_revid, delta):
                 raise Injected("updateBasis")
             return f
-        patch(workingtree_4.DirStateWorkingTree, "update_basis_by_delta", mk)
+        patch(type(wt), "update_basis_by_delta", mk)
 
     def undo_all():
         for u in reversed(undo):
@@ -952,27 +1155,80 @@ def _install_fault(stage, when):
 
 def late_family(stage, revs_changed, tip_changed):
     """family slug of a late-exception violation, from the stage that raised and what was left behind"""
-    name = {"preHook": "pre_commit-hook", "setTip": "set_last_revision_info", "updateBasis": "update_basis_by_delta",
-            "postHook": "post_commit-hook"}.get(stage)
+    name = {"preHook": "pre_commit-hook", "masterImport": "master-update", "setTip": "set_last_revision_info",
+            "updateBasis": "update_basis_by_delta", "postHook": "post_commit-hook"}.get(stage)
     if name is None:
         return None
     if tip_changed and stage in ("updateBasis", "postHook"):
         return "exception-after-tip-update:" + name
-    if revs_changed and not tip_changed and stage in ("preHook", "setTip"):
+    if revs_changed and not tip_changed and stage in ("preHook", "masterImport", "setTip"):
         return "revision-left-after-late-exception:" + name
     return None
 
 
-def run_fault(base, stage, when):
+def fault_points(bound):
+    """(stage, when) in program order; None = no fault"""
+    pts = [(None, "first"), ("collect", "first"), ("collect", "last"), ("finishInv", "first"), ("finishInv", "last"),
+           ("message", "first"), ("builderCommit", "first"), ("preHook", "first")]
+    if bound:
+        pts.append(("masterImport", "first"))
+    return pts + [("setTip", "first"), ("updateBasis", "first"), ("postHook", "first")]
+
+
+def fault_spec(stage, when, ntexts):
+    """the fault point in the vocabulary of Model/C01 (`program`)"""
+    if stage is None:
+        return "~"
+    if stage == "collect":
+        return "text:0" if (when == "first" and ntexts > 0) else "pointless"
+    if stage == "finishInv":
+        return "finishInv" if when == "first" else "finishInv+"
+    if stage == "builderCommit":
+        return "addRev"
+    return stage
+
+
+def observe(wt, bound):
+    """what a fault may not change: revisions / inventories / texts visible in the repository, tip, master, tree basis"""
+    br = wt.branch
+    repo = br.repository
+    with br.lock_read():
+        revs = sorted(repo.all_revision_ids())
+        tip = br.last_revision_info()
+        ninv = ntext = None
+        if hasattr(repo, "inventories"):
+            ninv, ntext = len(set(repo.inventories.keys())), len(set(repo.texts.keys()))
+    mrevs = mtip = None
+    if bound:
+        m = br.get_master_branch()
+        with m.lock_read():
+            mrevs, mtip = sorted(m.repository.all_revision_ids()), m.last_revision_info()
+    return dict(revs=revs, tip=tip, ninv=ninv, ntext=ntext, mrevs=mrevs, mtip=mtip, basis=wt.last_revision(),
+                parents=wt.get_parent_ids())
+
+
+def copy_scenario(root, sub, bound):
+    """a private copy of the scenario; returns (copy root, working tree path)"""
+    d = copy_tree(root)
+    path = os.path.join(d, sub) if sub else d
+    if bound:
+        from breezy import urlutils
+        from breezy.branch import Branch
+        Branch.open(path).set_bound_location(urlutils.local_path_to_url(os.path.join(d, "master")))
+    return d, path
+
+
+def run_fault(root, sub, fmt, bound, stage, when, ntexts):
+    """one commit with an exception injected at (stage, when); returns dict(impl, line, viol, ntexts, raised)"""
     from breezy.workingtree import WorkingTree
-    d = copy_tree(base)
+    d, path = copy_scenario(root, sub, bound)
     viol = []
     try:
-        wt = WorkingTree.open(d)
-        revs0, tip0 = repo_state(wt)
-        basis0 = wt.last_revision()
+        wt = WorkingTree.open(path)
+        o0 = observe(wt, bound)
         raised = None
-        undo = _install_fault(stage, when) if stage not in (None, "message") else (lambda: None)
+        undo = _install_fault(wt, stage, when) if stage not in (None, "message") else (lambda: None)
+        kw = dict(rev_id=b"new") if fmt == "bzr" else {}
         # the caller holds the tree lock around commit() (as cmd_commit does): a write group the
         # pipeline leaves open is then still open when commit() returns
         with wt.lock_write():
@@ -981,10 +1237,10 @@ def run_fault(base, stage, when):
                     if stage == "message":
                         def cb(c):
                             raise Injected("message")
-                        wt.commit(message_callback=cb, rev_id=b"new")
+                        wt.commit(message_callback=cb, **kw)
                     else:
-                        wt.commit("q", rev_id=b"new")
-                except Injected as e:
+                        wt.commit("q", **kw)
+                except Exception as e:  # noqa  (a failing abort may mask the injected exception)
                     raised = e
             finally:
                 undo()
@@ -992,26 +1248,43 @@ def run_fault(base, stage, when):
             if in_group:
                 viol.append(("commit raised at stage %s and left the repository write group open" % stage, None))
                 wt.branch.repository.abort_write_group()
-        wt = WorkingTree.open(d)
-        revs1, tip1 = repo_state(wt)
-        basis1 = wt.last_revision()
-        names = {r: "r%d" % k for k, r in enumerate(revs0)}
-        names[b"new"] = "new"
+        wt = WorkingTree.open(path)
+        o1 = observe(wt, bound)
+        names = {r: "r%d" % k for k, r in enumerate(sorted(set(o0["revs"]) | set(o0["mrevs"] or [])))}
         names[b"null:"] = "~"
-        show = lambda r: names.get(r, "?" + r.decode())
-        impl = "%s %s %s %s %s" % ("T" if raised else "F", ",".join(show(r) for r in sorted(revs1, key=lambda r: (r == b"new", r))) or "-",
-                                   show(tip1[1]), show(basis1), "T" if in_group else "F")
-        line = "fault %s %s %s new" % (stage or "~", ",".join(names[r] for r in revs0) or "-", show(tip0[1]))
+        show = lambda r: names.get(r, "new")
+        lst = lambda l: ",".join(show(r) for r in sorted(l, key=lambda r: (r not in names, r))) or "-"
+        dinv = (o1["ninv"] - o0["ninv"]) if o0["ninv"] is not None else None
+        dtext = (o1["ntext"] - o0["ntext"]) if o0["ntext"] is not None else None
+        impl = "%s %s %s %s %s %s %s" % ("T" if raised else "F", lst(o1["revs"]), show(o1["tip"][1]), show(o1["basis"]),
+                                         "T" if in_group else "F", lst(o1["mrevs"]) if bound else "-",
+                                         show(o1["mtip"][1]) if bound else "~")
+        if dinv is not None:
+            impl += " %d %d" % (dinv, dtext)
+        if stage is None and raised is None and dtext is not None:
+            ntexts = dtext
+        line = "fault %s %s %d %s %s %s %s new" % (fault_spec(stage, when, ntexts), "T" if bound else "F", ntexts,
+                                                   lst(o0["revs"]), show(o0["tip"][1]), lst(o0["mrevs"]) if bound else "-",
+                                                   show(o0["mtip"][1]) if bound else "~")
         if raised is not None:
-            rc, tc = revs1 != revs0, tip1 != tip0
+            rc, tc = o1["revs"] != o0["revs"], o1["tip"] != o0["tip"]
             if rc or tc:
-                viol.append(("commit raised at stage %s (%s) but %s" % (stage, raised, "; ".join(
-                    x for x in ["all_revision_ids gained %r" % sorted(set(revs1) - set(revs0)) if rc else "",
-                                "the tip moved %r -> %r" % (tip0, tip1) if tc else ""] if x)),
+                viol.append(("commit raised at stage %s (%s: %s) but %s" % (stage, type(raised).__name__, raised, "; ".join(
+                    x for x in ["all_revision_ids gained %r" % sorted(set(o1["revs"]) - set(o0["revs"])) if rc else "",
+                                "the tip moved %r -> %r" % (o0["tip"], o1["tip"]) if tc else ""] if x)),
                     late_family(stage, rc, tc)))
+            if bound and not tc and (o1["mtip"] != o0["mtip"] or o1["mrevs"] != o0["mrevs"]):
+                viol.append(("commit raised at stage %s with the local tip unchanged, but the master branch changed: tip %r -> %r, "
+                             "revisions +%r" % (stage, o0["mtip"], o1["mtip"], sorted(set(o1["mrevs"]) - set(o0["mrevs"]))),
+                             "master-updated-before-late-exception:set_last_revision_info" if stage == "setTip" else None))
+            if stage is None:
+                viol[:] = []      # the unfaulted commit of this scenario is refused: nothing to inject into
+            elif not (rc or tc) and o1["parents"] != o0["parents"]:
+                viol.append(("commit raised at stage %s but the tree's parents changed" % stage, None))
         elif stage is not None:
             viol.append(("fault at stage %s was not raised by commit()" % stage, None))
-        return dict(impl=impl, line=line, viol=viol)
+        return dict(impl=impl, line=line, viol=viol, ntexts=ntexts, raised=type(raised).__name__ if raised else None,
+                    ncmp=[0, 1, 2, 4, 5, 6] if fmt == "git" else list(range(9)))
     finally:
         shutil.rmtree(d, ignore_errors=True)
 
@@ -1085,6 +1358,7 @@ def run_transport_fault(script, k):
         br.create_checkout(cdir, lightweight=True)
         w = W.__new__(W)
         w.fmt, w.wt, w.base, w.n = "bzr", WorkingTree.open(cdir), cdir, 0
+        w.bound, w.idprefix, w.nmerge, w.root, w.sub = False, "i", 0, cdir, ""
         w.wt.set_root_id(b"r")
         for op in script:
             w.apply_safe(tuple(op))
@@ -1135,42 +1409,114 @@ def run_transport_fault(script, k):
 # --------------------------------------------------------------------------
 # scenario workers (run in forked processes; return plain data)
 
+def fault_records(w, fmt, script, basis_enc, wt_enc, npend):
+    """the unfaulted commit and one commit per fault point, each on a private copy"""
+    recs = []
+    ntexts = 0
+    for stage, when in fault_points(w.bound):
+        r = run_fault(w.root, w.sub, fmt, w.bound, stage, when, ntexts)
+        case = dict(fmt=fmt, bound=w.bound, script=script, fault=stage, when=when, basis=basis_enc, wt=wt_enc)
+        if stage is None:
+            if r["raised"] is not None:
+                # the scenario's full commit is refused (e.g. the tree is inconsistent): no pipeline to inject into
+                recs.append(dict(kind="fault-baseline-refused", case=case, npend=npend, line=None, impl=r["impl"], viol=[],
+                                 counters=["fault:baseline-refused:%s" % r["raised"]]))
+                return recs
+            ntexts = r["ntexts"]
+        counters = ["fault:%s%s:%s" % (fmt, "-bound" if w.bound else "", stage)]
+        if r["raised"] not in (None, "Injected"):
+            counters.append("fault:masked-by:%s" % r["raised"])
+        recs.append(dict(kind="fault", case=case, npend=npend, line=r["line"], impl=r["impl"], viol=r["viol"],
+                         counters=counters, ncmp=r["ncmp"]))
+    return recs
+
+
+def query_kind(sel, excl):
+    if sel is None:
+        return "query:exclude-only" if excl else "query:full"
+    if any(p in ("zz", "a/zz") for p in sel):
+        return "query:unversioned-name"
+    if not sel:
+        return "query:empty-selection"
+    return "query:select+exclude" if excl else "query:select"
+
+
 def scenario_worker(args):
     import random
     fmt, seed, tier, nq, faults, variant = args
+    bound = merge = False
+    if fmt == "bzr-bound":
+        fmt, bound = "bzr", True
+    elif fmt == "bzr-merge":
+        fmt, merge = "bzr", True
     rng = random.Random(seed)
     pick = (lambda q, t: t) if tier == "thorough" else (lambda q, t: q)
     recs = []
     try:
-        w, script = build_script(fmt, rng, pick)
+        w, script = build_script(fmt, rng, pick, bound=bound, merge=merge or None)
     except Exception as e:  # infrastructure problem while building: report, do not hide
         import traceback
-        return [dict(kind="build-error", error="%s: %s\n%s" % (type(e).__name__, e, traceback.format_exc()[-900:]), seed=seed, fmt=fmt)]
+        return [dict(kind="build-error", etype=type(e).__name__, errno=getattr(e, "errno", None),
+                     error="%s: %s\n%s" % (type(e).__name__, e, traceback.format_exc()[-900:]), seed=seed, fmt=fmt)]
     try:
         wt = w.wt
+        opk = ["op:%s" % op[0] for op in script]
         if fmt == "bzr":
             basis, wtsnap = snap_rev(wt.basis_tree()), snap_wt(wt)
             bp, wp = paths_of(basis), paths_of(wtsnap)
-            npend = len([i for i in set(basis) | set(wtsnap) if basis.get(i) != wtsnap.get(i)])
-            for sel, excl in gen_queries(rng, bp.values(), wp.values(), nq, tier == "thorough" and rng.random() < 0.3):
+            with wt.lock_read():
+                merges = len(wt.get_parent_ids()) > 1
+            pend = [i for i in set(basis) | set(wtsnap) if basis.get(i) != wtsnap.get(i)]
+            npend = len(pend)
+            shape = []
+            for i in pend:
+                b, t = basis.get(i), wtsnap.get(i)
+                if b is None:
+                    shape.append("pending:added")
+                elif t is None:
+                    shape.append("pending:removed")
+                elif t["kind"] == "missing":
+                    shape.append("pending:missing")
+                else:
+                    if b["kind"] != t["kind"]:
+                        shape.append("pending:kind-change")
+                    if b["parent"] != t["parent"]:
+                        shape.append("pending:reparented")
+                    elif b["name"] != t["name"]:
+                        shape.append("pending:renamed")
+                    if b["kind"] == t["kind"] and (b["content"] != t["content"] or b["exec"] != t["exec"]):
+                        shape.append("pending:modified")
+            first = True
+            carried = [wp[i] for i in wtsnap if basis.get(i) == wtsnap[i] and bp.get(i) != wp.get(i) and wp.get(i)]
+            queries = gen_queries(rng, bp.values(), wp.values(), nq if not (bound or merges) else 3,
+                                  tier == "thorough" and rng.random() < 0.3, carried) if not bound else []
+            for sel, excl in queries:
                 r = run_bzr_query(w.base, basis, wtsnap, sel, excl)
                 case = dict(fmt=fmt, script=script, sel=sel, excl=excl, basis=enc_tree(basis), wt=enc_tree(wtsnap))
+                cnt = list(r["counters"]) + [query_kind(sel, excl)]
+                if merges:
+                    cnt.append("bzr:pending-merge:%s" % r["impl"].split(" ")[0].split(":")[-1][:32])
+                if sel:
+                    # a rename that crosses the selection: one of the two paths of a moved id is selected, the other is not
+                    if any(i in basis and i in wtsnap and bp.get(i) != wp.get(i) and inside(sel, bp.get(i)) != inside(sel, wp.get(i))
+                           for i in pend):
+                        cnt.append("query:rename-across-selection")
+                if first:
+                    cnt += opk + shape
+                    first = False
                 recs.append(dict(kind="bzr", case=case, npend=npend,
-                                 line="commit %s %s %s %s %s" % (variant, enc_sel(sel), enc_paths(excl), enc_tree(basis), enc_tree(wtsnap)),
+                                 line="commit %s %s %s %s %s %s" % (variant, "T" if merges else "F", enc_sel(sel), enc_paths(excl),
+                                                                    enc_tree(basis), enc_tree(wtsnap)),
                                  line2="from %s %s %s %s" % (variant, enc_ids(r["S"]), enc_tree(basis), enc_tree(wtsnap)),
                                  line3="ids %s %s %s %s" % (enc_sel(sel), enc_paths(excl), enc_tree(basis), enc_tree(wtsnap)),
-                                 impl=r["impl"], S=r["S"], vac=r["vac"], below=r["below"], viol=r["viol"], counters=r["counters"]))
-            if faults:
-                for stage in [None] + STAGES:
-                    for when in (("first", "last") if stage in ("collect", "finishInv") else ("first",)):
-                        r = run_fault(w.base, stage, when)
-                        case = dict(fmt=fmt, script=script, fault=stage, when=when, basis=enc_tree(basis), wt=enc_tree(wtsnap))
-                        recs.append(dict(kind="fault", case=case, npend=npend, line=r["line"], impl=r["impl"], viol=r["viol"],
-                                         counters=["fault:%s" % stage]))
+                                 impl=r["impl"], S=r["S"], vac=r["vac"], below=r["below"], viol=r["viol"], counters=cnt))
+            if faults or bound:
+                recs += fault_records(w, fmt, script, enc_tree(basis), enc_tree(wtsnap), npend)
         else:
             basis, wtsnap = gsnap_rev(wt.basis_tree()), gsnap_wt(wt)
             changes = git_changes(wt)
             npend = len([p for p in set(basis) | set(wtsnap) if basis.get(p) != wtsnap.get(p)])
+            first = True
             for sel, excl in gen_queries(rng, basis.keys(), wtsnap.keys(), nq, False):
                 if sel is not None and any(p in ("zz", "a/zz") for p in sel):
                     continue
@@ -1178,23 +1524,30 @@ def scenario_worker(args):
                 eff = {p: e for p, e in wtsnap.items() if e["kind"] != "missing"}
                 case = dict(fmt=fmt, script=script, sel=sel, excl=excl, basis=enc_gtree(basis), wt=enc_gtree(eff),
                             changes=enc_gchanges(changes))
+                cnt = list(r["counters"]) + [query_kind(sel, excl).replace("query:", "gquery:")]
+                if first:
+                    cnt += ["g" + k for k in opk]
+                    first = False
                 if sel == [] and not any(op[0] == "commit" for op in script):
                     # first commit that selects nothing: GitCommitBuilder refuses (no root); outside the tree model
                     if r["impl"] != "E:RootMissing":
                         r["viol"].append(("first commit with specific_files=[] gave %s, expected RootMissing" % r["impl"][:40], None))
                     recs.append(dict(kind="git-rootmissing", case=case, npend=npend, line=None, impl=r["impl"], viol=r["viol"],
-                                     counters=r["counters"]))
+                                     counters=cnt))
                     continue
                 recs.append(dict(kind="git", case=case, npend=npend,
                                  line=None if r.get("conflict") else "git %s %s %s %s %s" % (
                                      enc_sel(sel), enc_paths(excl), enc_gchanges(changes), enc_gtree(basis), enc_gtree(eff)),
-                                 impl=r["impl"], viol=r["viol"], counters=r["counters"]))
+                                 impl=r["impl"], viol=r["viol"], counters=cnt))
+            if faults:
+                eff = {p: e for p, e in wtsnap.items() if e["kind"] != "missing"}
+                recs += fault_records(w, fmt, script, enc_gtree(basis), enc_gtree(eff), npend)
     except Exception as e:
         import traceback
-        recs.append(dict(kind="build-error", error="%s: %s\n%s" % (type(e).__name__, e, traceback.format_exc()[-1500:]),
-                         seed=seed, fmt=fmt))
+        recs.append(dict(kind="build-error", etype=type(e).__name__, errno=getattr(e, "errno", None),
+                         error="%s: %s\n%s" % (type(e).__name__, e, traceback.format_exc()[-1500:]), seed=seed, fmt=fmt))
     finally:
-        shutil.rmtree(w.base, ignore_errors=True)
+        shutil.rmtree(w.root, ignore_errors=True)
     return recs
 
 
@@ -1203,8 +1556,8 @@ def transport_worker(args):
     seed, tier = args
     rng = random.Random(seed)
     pick = (lambda q, t: t) if tier == "thorough" else (lambda q, t: q)
-    w, script = build_script("bzr", rng, pick)
-    shutil.rmtree(w.base, ignore_errors=True)
+    w, script = build_script("bzr", rng, pick, merge=False)
+    shutil.rmtree(w.root, ignore_errors=True)
     out = []
     try:
         base = run_transport_fault(script, None)
@@ -1217,25 +1570,37 @@ def transport_worker(args):
             out.append(dict(k=k, script=script, **run_transport_fault(script, k)))
     except Exception as e:
         import traceback
-        out.append(dict(k=-1, script=script, error="%s: %s\n%s" % (type(e).__name__, e, traceback.format_exc()[-1500:]), viol=[]))
+        out.append(dict(k=-1, script=script, etype=type(e).__name__, errno=getattr(e, "errno", None),
+                        error="%s: %s\n%s" % (type(e).__name__, e, traceback.format_exc()[-1500:]), viol=[]))
     return out
 
 
 # --------------------------------------------------------------------------
+
+INFRA_ERRNO = (12, 23, 24, 28)       # ENOMEM, ENFILE, EMFILE, ENOSPC
+
+
+def scenario_error(ctx, r):
+    """a scenario that could not be built / run: resource exhaustion is an infrastructure problem (exit 2),
+    anything else is reported (the code under test crashed where it must not)"""
+    if r.get("etype") in ("MemoryError", "TimeoutError") or r.get("errno") in INFRA_ERRNO:
+        raise env.InfraError("scenario worker: " + r["error"][:300])
+    ctx.extra.setdefault("scenario_errors", []).append(r["error"][:600])
+    ctx.count("scenario-error")
+
 
 def absorb(ctx, recs):
     """parent-side bookkeeping + model comparison for the records of the workers"""
     lines, cases, impls, kinds, extra = [], [], [], [], []
     for r in recs:
         if r["kind"] == "build-error":
-            ctx.extra.setdefault("scenario_errors", []).append(r["error"][:600])
-            ctx.count("scenario-error")
+            scenario_error(ctx, r)
             continue
         nontrivial = r["npend"] > 0 and (r["kind"] == "fault" or r["case"].get("sel") is not None or bool(r["case"].get("excl")))
         ctx.case({k: v for k, v in r["case"].items() if k != "script"}, nontrivial=nontrivial)
         for c in r["counters"]:
             ctx.count(c)
-        ctx.count("pending:%d" % min(r["npend"], 8))
+        ctx.count("pending:%d" % min(r["npend"], 12))
         for what, fam in r["viol"]:
             ctx.violation(r["case"], what, family=fam)
         if r["line"] is None:
@@ -1267,22 +1632,29 @@ def absorb(ctx, recs):
                 ctx.count("bzr:dirstate-lstat-below-non-directory")
                 k += 3
                 continue
-            early = r["impl"].startswith("E:PathsNotVersioned")
+            # refused before the change stream is produced: the `from` line (which has no selection) does not apply
+            early = r["impl"].startswith("E:PathsNotVersioned") or r["impl"] == "E:CannotCommitSelectedFileMerge"
             if m_from != r["impl"] and not early:
                 ctx.mismatch(r["case"], r["impl"], m_from, line=lines[k + 1], tie="T2 from")
             if m_commit != r["impl"]:
-                # the only tolerated difference: the compiled dirstate comparison reported more ids than the
-                # InterInventoryTree closure, every extra id sits at a path vacated by another entry, and the rest
-                # of the pipeline behaves as the model says for the observed ids (`from` line)
                 ms = None if m_ids.startswith("E:") or m_ids == "bad-op" else set(m_ids.split(",")) - {"-"}
                 if ms is not None and ms < set(r["S"]) and set(r["S"]) - ms <= set(r["vac"]) and m_from == r["impl"]:
+                    # the only other tolerated difference: the compiled dirstate comparison reported more ids than the
+                    # InterInventoryTree closure, every extra id sits at a path vacated by another entry, and the rest
+                    # of the pipeline behaves as the model says for the observed ids (`from` line)
                     ctx.count("bzr:dirstate-superset")
                 else:
                     ctx.mismatch(r["case"], r["impl"], m_commit, line=lines[k], tie="T2 commit")
             k += 3
         else:
             ctx.traces += 1
-            if outs[k] != r["impl"]:
+            m = outs[k]
+            impl = r["impl"]
+            if kinds[k] == "fault" and r.get("ncmp") and not m.startswith("bad"):
+                # git: inventories / texts are not observable and the tree has no basis pointer of its own (it is HEAD)
+                m = " ".join(x for n, x in enumerate(m.split(" ")) if n in r["ncmp"])
+                impl = " ".join(x for n, x in enumerate(impl.split(" ")) if n in r["ncmp"])
+            if m != impl:
                 ctx.mismatch(r["case"], r["impl"], outs[k], line=lines[k], tie="T2 " + kinds[k])
             k += 1
 
@@ -1300,14 +1672,18 @@ def run(ctx):
     if variant not in ("strict", "lax"):
         ctx.mismatch(dict(kind="probe"), variant, "strict | lax")
         variant = VARIANT = "strict"
-    nsc = ctx.pick(14, 70)
-    ngit = ctx.pick(10, 40)
+    nsc = ctx.pick(10, 60)
+    ngit = ctx.pick(7, 36)
     nq = ctx.pick(7, 14)
     jobs = []
     for k in range(nsc):
-        jobs.append(("bzr", ctx.rng.randrange(1 << 30), ctx.tier, nq, k % ctx.pick(5, 3) == 0, variant))
+        jobs.append(("bzr", ctx.rng.randrange(1 << 30), ctx.tier, nq, k % ctx.pick(6, 4) == 0, variant))
+    for k in range(ctx.pick(2, 10)):
+        jobs.append(("bzr-merge", ctx.rng.randrange(1 << 30), ctx.tier, nq, False, variant))
+    for k in range(ctx.pick(1, 6)):
+        jobs.append(("bzr-bound", ctx.rng.randrange(1 << 30), ctx.tier, nq, True, variant))
     for k in range(ngit):
-        jobs.append(("git", ctx.rng.randrange(1 << 30), ctx.tier, nq, False, variant))
+        jobs.append(("git", ctx.rng.randrange(1 << 30), ctx.tier, nq, k % ctx.pick(8, 6) == 0, variant))
     tjobs = [(ctx.rng.randrange(1 << 30), ctx.tier) for _ in range(ctx.pick(2, 8))]
     # corpus first
     cdir = os.path.join(env.VERIF, "corpus", "C01")
@@ -1323,11 +1699,10 @@ def run(ctx):
     for outs in ctx.pmap(transport_worker, tjobs, chunksize=1):
         for o in outs:
             if o.get("error"):
-                ctx.extra.setdefault("scenario_errors", []).append(o["error"][:600])
-                ctx.count("scenario-error")
+                scenario_error(ctx, dict(error=o["error"], etype=o.get("etype"), errno=o.get("errno")))
                 continue
             case = dict(fmt="bzr-checkout", script=o["script"], transport_fault=o["k"])
-            ctx.case(dict(case, at=o["at"]), nontrivial=o["k"] is not None)
+            ctx.case(dict(case, at=canon_at(o["at"])), nontrivial=o["k"] is not None)
             ctx.count("tfault:%s" % ("none" if o["k"] is None else ("raised" if o["raised"] else "not-raised")))
             if o["k"] is not None and o["after_names"]:
                 ctx.count("tfault:after-pack-names")
@@ -1335,6 +1710,14 @@ def run(ctx):
                 ctx.violation(case, what, family=fam)
     if ctx.dist.get("scenario-error"):
         ctx.mismatch(dict(kind="scenario-error"), ctx.extra["scenario_errors"][0], "scenario built and ran")
+
+
+def canon_at(at):
+    """the transport call a fault hit, without the random parts of lock / upload temp names"""
+    import re
+    if at is None:
+        return None
+    return [at[0], re.sub(r"[a-z0-9]{20,}", "*", at[1])]
 
 
 VARIANT = None
@@ -1350,20 +1733,26 @@ def replay_records(case):
     script = [tuple(op) for op in case["script"]]
     if fmt == "bzr-checkout":
         o = run_transport_fault(script, case.get("transport_fault"))
-        return [dict(kind="fault", case=case, npend=1, line="fault ~ - ~ new", impl="F new new new F", viol=o["viol"],
+        return [dict(kind="fault", case=case, npend=1, line="fault ~ F 0 - ~ - ~ new", impl="F new new new F - ~ 1 0", viol=o["viol"],
                      counters=["replay"], info=o)]
-    w = replay_script("bzr" if fmt == "bzr" else "git", script)
+    bound = bool(case.get("bound"))
+    w = replay_script("bzr" if fmt == "bzr" else "git", script, bound=bound)
     try:
         wt = w.wt
         if "fault" in case:
-            r = run_fault(w.base, case["fault"], case.get("when", "first"))
-            return [dict(kind="fault", case=case, npend=1, line=r["line"], impl=r["impl"], viol=r["viol"], counters=["replay"])]
+            base = run_fault(w.root, w.sub, fmt, bound, None, "first", 0)
+            r = run_fault(w.root, w.sub, fmt, bound, case["fault"], case.get("when", "first"), base["ntexts"])
+            return [dict(kind="fault", case=case, npend=1, line=r["line"], impl=r["impl"], viol=r["viol"], counters=["replay"],
+                         ncmp=r["ncmp"])]
         sel, excl = case.get("sel"), case.get("excl") or []
         if fmt == "bzr":
             basis, wtsnap = snap_rev(wt.basis_tree()), snap_wt(wt)
+            with wt.lock_read():
+                merges = len(wt.get_parent_ids()) > 1
             r = run_bzr_query(w.base, basis, wtsnap, sel, excl)
             return [dict(kind="bzr", case=case, npend=1,
-                         line="commit %s %s %s %s %s" % (variant, enc_sel(sel), enc_paths(excl), enc_tree(basis), enc_tree(wtsnap)),
+                         line="commit %s %s %s %s %s %s" % (variant, "T" if merges else "F", enc_sel(sel), enc_paths(excl),
+                                                            enc_tree(basis), enc_tree(wtsnap)),
                          line2="from %s %s %s %s" % (variant, enc_ids(r["S"]), enc_tree(basis), enc_tree(wtsnap)),
                          line3="ids %s %s %s %s" % (enc_sel(sel), enc_paths(excl), enc_tree(basis), enc_tree(wtsnap)),
                          impl=r["impl"], S=r["S"], vac=r["vac"], below=r["below"], viol=r["viol"], counters=r["counters"])]
@@ -1375,7 +1764,7 @@ def replay_records(case):
                      line="git %s %s %s %s %s" % (enc_sel(sel), enc_paths(excl), enc_gchanges(changes), enc_gtree(basis), enc_gtree(eff)),
                      impl=r["impl"], viol=r["viol"], counters=r["counters"])]
     finally:
-        shutil.rmtree(w.base, ignore_errors=True)
+        shutil.rmtree(w.root, ignore_errors=True)
 
 
 def replay(ctx, case):
@@ -1384,5 +1773,9 @@ def replay(ctx, case):
     for what, fam in r["viol"]:
         ctx.violation(case, what, family=fam)
     m = ctx.model([r["line"]])[0] if ctx.model_available else None
-    return dict(case=case, impl=r["impl"], model=m, agree=(m == r["impl"]), info=r.get("info"),
+    impl = r["impl"]
+    if m is not None and r.get("ncmp") and r["kind"] == "fault":
+        m = " ".join(x for n, x in enumerate(m.split(" ")) if n in r["ncmp"])
+        impl = " ".join(x for n, x in enumerate(impl.split(" ")) if n in r["ncmp"])
+    return dict(case=case, impl=r["impl"], model=m, agree=(m == impl), info=r.get("info"),
                 oracle_failures=[v["what"] for v in ctx.violations])
